@@ -21,13 +21,14 @@ var vTierThorough = false
 
 // H01_shape: every batch shape inside the bound, narrow numbers, symbolic chunk mode.
 func H01_shape() {
-	cfg := gCfg{prefix: "", idBase: "d", nDocs: 1 + vChoice("nDocs", 2), wide: -1, freqZero: true, maxAP: 1,
+	cfg := gCfg{prefix: "", idBase: "d", nDocs: 1 + vChoice("nDocs", 2), wide: -1, freqZero: vParam("freqZero", 1) == 1, maxAP: 1, noFx: vParam("lite", 0) == 1,
 		fields: []gField{
 			{name: "f", terms: []string{"", "a"}, tv: true, maxLocs: 1, multi: true},
 			{name: "g", terms: []string{"é", "b"}, dv: true},
 		}}
 	if vParam("lite", 0) == 1 {
 		cfg.fields[0].terms = []string{""}
+		cfg.fields[0].multi = false
 		cfg.fields[1].terms = []string{"é"}
 	}
 	docs, sp := vGenBatch(cfg)
